@@ -8,6 +8,22 @@ import vlib
 from props import fam_sf as F
 
 
+def exact_edge_energy(binden):
+    """an energy (eV) for which 0.001*E is exactly the float binden, so that cromer() sees bena == energa
+    (the branch condition `bena <= energa` is decided exactly there); falls back to 1000*binden."""
+    import struct
+    b = struct.unpack('f', struct.pack('f', float(binden)))[0]
+    e = 1000.0 * b
+    c = e
+    for _ in range(6):
+        c = math.nextafter(c, 0.0)
+    for _ in range(13):
+        if 0.001 * c == b:
+            return c
+        c = math.nextafter(c, math.inf)
+    return e
+
+
 def gen_lines(rng, t, quick):
     lines = ['o_doc\t-']
     idx, rows = t['index'], t['rows']
@@ -37,7 +53,7 @@ def gen_lines(rng, t, quick):
             e = 1000.0 * b
             if e < 50:
                 continue
-            for v in (e, e * (1 - 1e-9), e * (1 + 1e-9), e * 1.001):
+            for v in (exact_edge_energy(rows[off + i][1]), e * (1 - 1e-9), e * (1 + 1e-9), e * 1.001):
                 lines.append('fpp\t%d %r' % (z, v))
         lines.append('cl\t%d %r' % (z, round(1000 * 80 ** rng.random(), 2)))
     return lines
